@@ -125,9 +125,8 @@ def _hp_acquire_exit(ctx, HP):
             ctx.bad(rid, inst, "no assignment to guard_ptr::ptr found in acquire", fn.where(), fn=fn)
             continue
         for a in asg:
-            pred = lambda f, nid: f.nodes[nid]["k"] == "bin" and f.nodes[nid]["op"] in ("!=", "==") and ".get()" in f.expr(nid)
-            ok, path, n = flow.only_via(fn, a, pred, False)
-            # polarity False means the != comparison was false (pointers equal)
+            # the re-validation: an (in)equality between two values that both stem from loads of the source pointer, taken as 'equal'
+            ok, path, n = flow.only_via_want(fn, a, flow.equal_want(lambda f, x: flow.has_src(f, x, "load:param#0")))
             ctx.check(ok and n > 0, rid, inst, "ptr assigned only when the reloaded pointer equals the protected one",
                       "guard_ptr::ptr is assigned on a path that does not pass the 'pointer unchanged' edge of the re-validation", fn.where(a), fn=fn,
                       path=flow.describe_path(fn, path))
@@ -137,8 +136,8 @@ def _hp_acquire_exit(ctx, HP):
         if not rets:
             ctx.bad(rid, inst, "no 'return true' found", fn.where(), fn=fn)
         for r in rets:
-            pred = lambda f, nid: f.nodes[nid]["k"] == "call" and f.nodes[nid].get("callee", "").endswith("operator!=") and "ptr" in f.expr(nid)
-            ok, path, n = flow.only_via(fn, r, pred, False)
+            # the re-validation compares the reloaded pointer (kept in guard_ptr::ptr or a local) with the first load of the source
+            ok, path, n = flow.only_via_want(fn, r, flow.equal_want(lambda f, x: flow.has_src(f, x, "load:param#0") or flow.has_src(f, x, "field:ptr")))
             ctx.check(ok and n > 0, rid, inst, "'return true' only when the reloaded pointer equals the first load",
                       "'return true' reachable without the re-validation comparison being false", fn.where(r), fn=fn, path=flow.describe_path(fn, path))
 
@@ -253,7 +252,7 @@ def hazard_eras_rules(ctx):
             label="need_more|null")
     chain(ctx, "HE.slots", CB + "alloc_hazard_era", [call("get_link"), call("set_era"), call("hazard_era::add_guard", pred=lambda fn, nid: "last_hazard_era" not in fn.expr(nid))], mode="dom", label="link<era<guard")
     _throws_only(ctx, "HE.slots", R + "detail::static_he_thread_control_block::need_more_hes", "bad_hazard_era_alloc")
-    guarded(ctx, "HE.slots", CB + "release_hazard_era", call("set_link"), {"k": "bin", "expr_re": r"release_guard\(\) == 0", "desc": "release_guard() == 0"}, True,
+    guarded(ctx, "HE.slots", CB + "release_hazard_era", call("set_link"), {"want": flow.null_want(lambda f, x: flow.has_src(f, x, "call:release_guard")), "desc": "release_guard() == 0"}, True,
             label="free|last-guard", why="a hazard era slot is shared by guards of the same era; it may be recycled only when the last guard leaves")
     chain(ctx, "HE.slots", HE + "guard_ptr::reset", [call("release_hazard_era")], label="reset-releases")
     # a hazard era slot is shared by copies / same-era guards: its era may only be overwritten by its sole owner
@@ -296,8 +295,8 @@ def thread_block_list_rules(ctx):
             ctx.bad(rid, inst, "adopt_or_create_entry must try to adopt (%d) before allocating (%d)" % (len(tries), len(news)), fn.where(), fn=fn)
             continue
         # the allocation is only reached via the false edge of the loop condition `result` (list exhausted)
-        loop = lambda f, nid: f.nodes[nid]["k"] == "ref" and f.nodes[nid].get("name") == "result"
-        ok, path, n = flow.only_via(fn, news[0], loop, False)
+        # (the cursor is whatever is loaded from head and advanced through next_entry; the test may be `while (c)`, `c != nullptr`, ...)
+        ok, path, n = flow.only_via_want(fn, news[0], flow.null_want(lambda f, x: flow.has_src(f, x, "load:head")))
         ok2 = all(fn.event_reaches(t, news[0]) for t in tries) and not any(fn.before(news[0], t) for t in tries)
         ctx.check(ok and n > 0 and ok2, rid, inst, "allocation only after the adoption loop ran off the end of the list",
                   "a new control block is allocated without first trying to adopt every free block (bookkeeping grows with threads ever created)",
@@ -310,8 +309,38 @@ def thread_block_list_rules(ctx):
             ctx.check(ok3 and n3 > 0, rid, T + "adopt_or_create_entry#return|adopted", "early return only with an adopted block",
                       "a block is returned without a successful try_adopt (two threads could share one control block)", fn.where(r), fn=fn)
     chain(ctx, rid, T + "adopt_or_create_entry", [{"k": "new"}, call("add_entry")], label="new<add_entry")
-    guarded(ctx, rid, T + "entry::try_adopt", {"k": "call", "field": "state", "kind": "cas"}, {"k": "bin", "expr_re": r"state\.load\(.*\) == ", "desc": "state == free"}, True,
-            label="cas|free")
+    # ownership of a control block changes hands through `state`: abandon() stores the constant X, try_adopt() takes the block with a CAS that
+    # expects exactly X and reports success only if that CAS succeeded (the relaxed pre-check before the CAS is an optimisation, not required)
+    freed = set()
+    for fn in flow._shapes(ctx, T + "entry::abandon"):
+        for e in flow.find(fn, {"k": "call", "field": "state", "op": "store"}):
+            freed.add(flow.const_value(fn, fn.kids(e)[1]) if len(fn.kids(e)) > 1 else None)
+    for fn in flow._shapes(ctx, T + "entry::try_adopt"):
+        cass = flow.find(fn, {"k": "call", "field": "state", "kind": "cas"})
+        inst = T + "entry::try_adopt#cas-expects-free"
+        if not cass:
+            ctx.bad(rid, inst, "try_adopt must take ownership with a CAS on state", fn.where(), fn=fn)
+            continue
+        for c_ in cass:
+            exp = fn.kids(c_)[1]
+            vals = set()
+            if fn.nodes[exp]["k"] == "ref" and fn.nodes[exp].get("dk") == "local":
+                ds = flow.local_defs(fn, fn.nodes[exp]["name"])
+                vals = {flow.const_value(fn, d) if d is not None else None for d in ds} if ds else {None}
+            else:
+                vals = {flow.const_value(fn, exp)}
+            ok = None not in vals and None not in freed and bool(freed) and vals == freed
+            ctx.check(ok, rid, inst, "the adopting CAS expects the value abandon() stores (%s)" % sorted(freed),
+                      "try_adopt's CAS expects %s but abandon() stores %s: either no block is ever re-used or a block that is still owned is taken over" % (
+                          sorted(map(str, vals)), sorted(map(str, freed))), fn.where(c_), fn=fn)
+        for r in flow.find(fn, {"k": "return"}):
+            k_ = fn.kids(r)
+            if not k_ or flow.const_value(fn, k_[0]) == 0:
+                continue
+            direct = flow.value_only_from(fn, k_[0], set(cass))
+            ok, path, n = (True, [], 1) if direct else flow.only_via(fn, r, lambda f, nid: nid in cass, True)
+            ctx.check(ok and n > 0, rid, T + "entry::try_adopt#true|cas-won", "success reported only when the CAS succeeded",
+                      "try_adopt can report success without having won the CAS on state: two threads share one control block", fn.where(r), fn=fn)
     chain(ctx, rid, T + "release_entry", [call("abandon")], label="release=abandon")
     present(ctx, rid, T + "entry::abandon", {"k": "call", "field": "state", "op": "store"}, label="store-free")
 
@@ -502,12 +531,12 @@ def stamp_rules(ctx):
           label="next<delete")
     chain(ctx, rid, TD + "process_global_nodes", [call("tail_stamp"), call("steal_global_retired_nodes")], label="tail_stamp<steal",
           why="the tail stamp used for the test must not be newer than the list it is applied to ... it must be read before stealing")
-    chain(ctx, rid, TD + "add_retired_node", [call("head_stamp"), {"k": "bin", "expr_re": r"^\(\*this->prev_retired_node = ", "desc": "*prev_retired_node = p"}],
+    chain(ctx, rid, TD + "add_retired_node", [call("head_stamp"), {"k": "bin", "pred": lambda fn, nid: fn.nodes[nid].get("op") == "=" and fn.nodes[fn.kids(nid)[0]]["k"] == "un" and fn.nodes[fn.kids(nid)[0]].get("op") == "*" and flow.has_src(fn, fn.kids(nid)[0], "field:prev_retired_node"), "desc": "*prev_retired_node = p"}],
           label="stamp<insert")
     chain(ctx, rid, TD + "enter_region", [call("ensure_has_control_block"), call("thread_order_queue::push")], label="block<push")
-    guarded(ctx, rid, TD + "enter_region", call("thread_order_queue::push"), {"k": "bin", "expr_re": r"\+\+this->region_entries == 1", "desc": "++region_entries == 1"}, True,
+    guarded(ctx, rid, TD + "enter_region", call("thread_order_queue::push"), {"want": flow.cmp_want(lambda f, x: f.nodes[x]["k"] == "un" and f.nodes[x].get("op") == "++" and flow.has_src(f, x, "field:region_entries"), flow.const_is(1)), "desc": "++region_entries == 1"}, True,
             label="push|outermost")
-    guarded(ctx, rid, TD + "leave_region", call("thread_order_queue::remove"), {"k": "bin", "expr_re": r"--this->region_entries == 0", "desc": "--region_entries == 0"}, True,
+    guarded(ctx, rid, TD + "leave_region", call("thread_order_queue::remove"), {"want": flow.cmp_want(lambda f, x: f.nodes[x]["k"] == "un" and f.nodes[x].get("op") == "--" and flow.has_src(f, x, "field:region_entries"), flow.const_is(0)), "desc": "--region_entries == 0"}, True,
             label="remove|outermost")
     chain(ctx, rid, TD + "leave_region", [call("thread_order_queue::remove"), call("process_global_nodes")], label="remove<process")
     guarded(ctx, rid, TD + "leave_region", call("process_global_nodes"), call("thread_order_queue::remove"), True, label="global|wasLast",
